@@ -257,6 +257,14 @@ def rule_clock_rng_allowlist(ctx, rep, rid: str) -> None:
                     rets = [f.node.body]
                 if rets and all(elapsed_compare(r) for r in rets):
                     why = "deadline closure"
+                elif id(f) not in natives and head == "time":
+                    # the reading is consumed by an ordered comparison (through +/- only) and nothing else: only one
+                    # bit "deadline passed" leaves the expression, and the function is not callable from script
+                    q, child = getattr(n, "_parent", None), n
+                    while isinstance(q, ast.BinOp) and isinstance(q.op, (ast.Add, ast.Sub)):
+                        q, child = getattr(q, "_parent", None), q
+                    if isinstance(q, ast.Compare) and all(isinstance(o, (ast.Gt, ast.GtE, ast.Lt, ast.LtE)) for o in q.ops):
+                        why = "deadline predicate (clock value only compared)"
             if why:
                 rep.ok(rid, key, {"role": why})
             else:
@@ -275,6 +283,23 @@ def rule_no_identity_in_messages(ctx, rep, rid: str) -> None:
             continue
         for x in f.own_nodes():
             if isinstance(x, ast.Call) and norm(x.func) in ("id", "hash") and x.args:
+                par = getattr(x, "_parent", None)
+                # identity used only as a membership key of a visited set is not observable
+                if isinstance(par, ast.Compare) and any(isinstance(o, (ast.In, ast.NotIn)) for o in par.ops):
+                    continue
+                if isinstance(par, ast.Call) and isinstance(par.func, ast.Attribute) and par.func.attr in ("add", "discard", "remove") and x in par.args:
+                    continue
+                if isinstance(par, (ast.Set, ast.BinOp)) and any(isinstance(q, (ast.Compare, ast.Call, ast.keyword)) for q in [getattr(par, "_parent", None)]):
+                    continue
+                if isinstance(par, ast.Assign) and isinstance(par.targets[0], ast.Name):
+                    # `key = id(v)`: every later use of the local must be membership / add / discard
+                    nm = par.targets[0].id
+                    uses = [u for u in f.own_nodes() if isinstance(u, ast.Name) and u.id == nm and isinstance(u.ctx, ast.Load)]
+                    def _ok(u):
+                        q = getattr(u, "_parent", None)
+                        return (isinstance(q, ast.Compare) and any(isinstance(o, (ast.In, ast.NotIn)) for o in q.ops)) or (isinstance(q, ast.Call) and isinstance(q.func, ast.Attribute) and q.func.attr in ("add", "discard", "remove", "append", "pop"))
+                    if uses and all(_ok(u) for u in uses):
+                        continue
                 rep.bad(rid, f"{f.qual}:{norm(x.func)}()", f"{f.qual} calls {norm(x.func)}(): address/hash-seed dependent value", f"{f.module.rel}:{x.lineno}")
             if isinstance(x, ast.Attribute) and x.attr == "__repr__" and norm(x.value) == "object":
                 rep.bad(rid, f"{f.qual}:object.__repr__", "default object repr contains an address", f"{f.module.rel}:{x.lineno}")
